@@ -311,6 +311,20 @@ func main() {
 	if !r.Quick() {
 		wsizes = append(wsizes, 10000)
 	}
+	// zero values: geometries whose coordinates are all zero (the Go zero value of the point and bound types)
+	// are geometries like any other, not "absent"
+	nz := math.Copysign(0, -1)
+	zeros := []orb.Geometry{
+		orb.Point{}, orb.Point{nz, nz}, orb.Point{0, nz},
+		orb.MultiPoint{{}}, orb.MultiPoint{{}, {}}, orb.LineString{{}, {}}, orb.Ring{{}, {}, {}, {}}, orb.Polygon{{{}, {}, {}, {}}}, orb.MultiLineString{{{}, {}}}, orb.MultiPolygon{{{{}, {}, {}, {}}}},
+		orb.Collection{orb.Point{}}, orb.Collection{orb.Point{1, 2}, orb.Point{}, orb.LineString{{}, {}}}, orb.Collection{orb.Collection{orb.Point{}}, orb.Point{3, 4}},
+		orb.Bound{}, orb.Collection{orb.Bound{}},
+	}
+	r.Explore("zero-values", fmt.Sprintf("%d geometries whose coordinates are all zero (points, bounds, lines, rings, polygons; alone, as collection members, nested; negative zeros)", len(zeros)), mc.Opts{MaxDev: -1}, func(c *mc.Ctx) {
+		g := zeros[c.Choose(len(zeros))]
+		roundTrip(c, g)
+		c.NonTrivial()
+	})
 	r.Explore("sizes", fmt.Sprintf("6 count dimensions (points of a multi-point, vertices of a line, rings of a polygon, lines of a multi-line, polygons of a multi-polygon, members of a flat collection) x counts %v: round trip through the generic and the typed parsers", wsizes), mc.Opts{MaxDev: -1, Split: 2}, func(c *mc.Ctx) {
 		dim := c.Choose(6)
 		n := wsizes[c.Choose(len(wsizes))]
